@@ -134,6 +134,61 @@ def make_source(rng, n):
     return fam, vals
 
 
+def derived_history(chk, rng, n, tag):
+    """what a node does with a request after creating it - answer it (an answer built on the request's own header), copy it,
+    decode its wire form, serialise it - must not make its identifiers available again: after each such step the random source
+    replays the identifiers of that request, and the next requests must still get different ones"""
+    import copy
+    from bromelia.base import DiameterRequest, DiameterAnswer, DiameterMessage, DiameterHeader
+    from bromelia.avps import ResultCodeAVP
+    classes = request_classes()
+    steps = [("answer(header=request.header)", lambda r: DiameterAnswer(header=r.header)),
+             ("answer(header=copy of request.header)", lambda r: DiameterAnswer(header=copy.deepcopy(r.header))),
+             ("answer built field by field", lambda r: DiameterAnswer(command_code=r.header.command_code, application_id=r.header.application_id,
+                                                                      hop_by_hop=r.header.hop_by_hop, end_to_end=r.header.end_to_end)),
+             ("message(request.header)", lambda r: DiameterMessage(r.header)),
+             ("request(header=request.header)", lambda r: DiameterRequest(header=r.header)),
+             ("decode(request.dump())", lambda r: DiameterMessage.load(r.dump())),
+             ("deepcopy(request)", lambda r: copy.deepcopy(r)),
+             ("answer + append + dump", lambda r: (lambda a: (a.append(ResultCodeAVP((2001).to_bytes(4, "big"))), a.dump()))(DiameterAnswer(header=r.header)))]
+    for _ in range(n):
+        n_req = rng.choice([2, 3, 5, 8])
+        vals = [rng.randrange(1, 2 ** 32) for _ in range(2 * n_req)] + [10 ** 6 + i for i in range(64)]
+        src = Source(vals)
+        made, ops, issued = [], [], []
+        with Patch(src):
+            for _i in range(n_req):
+                name, f = rng.choice(classes)
+                m = f()
+                made.append(m)
+                ops.append(name)
+                issued.append((int.from_bytes(m.header.hop_by_hop, "big"), int.from_bytes(m.header.end_to_end, "big")))
+            for _j in range(rng.choice([1, 2, 3])):
+                k = rng.randrange(len(made))
+                sname, sf = rng.choice(steps)
+                try:
+                    sf(made[k])
+                except BaseException as e:
+                    if isinstance(e, (KeyboardInterrupt, SystemExit)):
+                        raise
+                    sname += " (raised %s)" % type(e).__name__
+                ops.append("%s on request #%d" % (sname, k))
+                h, e2 = issued[k]
+                src.values[src.used:src.used] = [h, e2, e2, h]          # the source repeats that request's identifiers
+                name, f = rng.choice(classes)
+                m = f()
+                made.append(m)
+                ops.append(name)
+                issued.append((int.from_bytes(m.header.hop_by_hop, "big"), int.from_bytes(m.header.end_to_end, "big")))
+        inp = {"op": "derived-history", "ops": ops, "issued": issued[:12]}
+        chk.case(inp, kind="derived:%s" % tag)
+        hs, es = [p[0] for p in issued], [p[1] for p in issued]
+        if len(set(hs)) != len(hs):
+            chk.violation("a Hop-by-Hop identifier was issued twice after its first holder had been answered / copied / decoded", inp, "pairwise distinct", hs)
+        if len(set(es)) != len(es):
+            chk.violation("an End-to-End identifier was issued twice after its first holder had been answered / copied / decoded", inp, "pairwise distinct", es)
+
+
 def long_history(chk, n_between, tag):
     """an identifier issued long ago is still refused: n_between creations with fresh values, then the early values again"""
     from bromelia.base import DiameterRequest
@@ -360,6 +415,7 @@ def run(chk):
     quick = chk.tier == "quick"
     sequential(chk, rng, 300 if quick else 6000, "sweep")
     long_history(chk, 4500 if quick else 70000, "sweep")
+    derived_history(chk, rng, 300 if quick else 20000, "sweep")
     concurrent(chk, rng, 150 if quick else 4000, 400 if quick else 20000, "sweep")
 
     def search():
